@@ -137,14 +137,17 @@ func (ch *Channel) NewStream(ctx context.Context, desc *grpc.StreamDesc, methodN
 	}
 	reqUrl.Path = reqPath
 	reqUrlStr := reqUrl.String()
-	ctx, err = internal.ApplyPerRPCCreds(ctx, copts, reqUrlStr, reqUrl.Scheme == "https")
+	// the credentials' metadata goes into the request headers only: it does
+	// not become part of the stream's context, which the application can use
+	// for other calls (over channels these credentials were never meant for)
+	credsCtx, err := internal.ApplyPerRPCCreds(ctx, copts, reqUrlStr, reqUrl.Scheme == "https")
 	if err != nil {
 		return nil, err
 	}
 
 	ctx, cancel := context.WithCancel(ctx)
 
-	h := headersFromContext(ctx)
+	h := headersFromContext(credsCtx)
 	h.Set("Content-Type", StreamRpcContentType_V1)
 
 	// Intercept r.Close() so we can control the error sent across to the writer thread.
